@@ -74,6 +74,7 @@ class Fn:
     def __init__(self, fn):
         self.fn = fn
         self.assigns = []          # (target base name, value node, tuple target?, full target node)
+        self.meta = []             # parallel: (line of the statement, does it REPLACE the variable (plain `name = ...`)?)
         for node in ast.walk(fn):
             if isinstance(node, ast.Assign):
                 for t in node.targets:
@@ -82,14 +83,17 @@ class Fn:
                             b = base_name(e)
                             if b:
                                 self.assigns.append((b, node.value, True, e))
+                                self.meta.append((node.lineno, not isinstance(e, ast.Subscript)))
                     else:
                         b = base_name(t)
                         if b:
                             self.assigns.append((b, node.value, False, t))
+                            self.meta.append((node.lineno, not isinstance(t, ast.Subscript)))
             elif isinstance(node, ast.AugAssign):
                 b = base_name(node.target)
                 if b:
                     self.assigns.append((b, node.value, False, node.target))
+                    self.meta.append((node.lineno, False))
         self.params = {a.arg for a in fn.args.args}
 
     def slice(self, start, data_only=False):
@@ -140,9 +144,38 @@ def classify_source(fnx, vals, arg, verified_backward):
     return min(found, key=order.index)          # the weakest guarantee wins
 
 
+def reaching(fnx, name, line):
+    """assignments to `name` that can reach a use on `line`: the last plain re-assignment before the use and the updates
+    (augmented / element assignments) after it; a variable that is re-assigned loses what it held before."""
+    defs = [i for i, a in enumerate(fnx.assigns) if a[0] == name and fnx.meta[i][0] < line]
+    if not defs:       # only defined further down (a loop): every definition may reach
+        return [i for i, a in enumerate(fnx.assigns) if a[0] == name]
+    kills = [i for i in defs if fnx.meta[i][1]]
+    if kills:
+        last = max(fnx.meta[i][0] for i in kills)
+        return [i for i in defs if fnx.meta[i][0] >= last]
+    return defs
+
+
+def index_slice(fnx, expr):
+    work = [(n, getattr(expr, "lineno", 10 ** 9)) for n in names_of(expr)]
+    S, vals, seen = set(), [], set()
+    while work:
+        name, line = work.pop()
+        S.add(name)
+        for i in reaching(fnx, name, line):
+            if i in seen:
+                continue
+            seen.add(i)
+            vals.append(fnx.assigns[i])
+            for n in names_of(fnx.assigns[i][1]):
+                work.append((n, fnx.meta[i][0] + (1 if not fnx.meta[i][1] else 0)))
+    return S, vals
+
+
 def classify_index(fnx, expr):
-    """mask kinds an index expression stands for (the expression and everything flowing into it)."""
-    S, vals = fnx.slice(names_of(expr))
+    """mask kinds an index expression stands for (the expression and everything that reaches it)."""
+    S, vals = index_slice(fnx, expr)
     exprs = [expr] + [v for _, v, _, _ in vals]
     kinds = set()
     prior_names = set()            # names / subscripts that hold a freshly computed log-prior
